@@ -287,6 +287,26 @@ func checkC04(c *Ctx) (int, error) {
 			}
 		}
 	}
+	// long, well compressible streams: the output window fills and slides dozens of times while the
+	// input arrives in tiny pieces (roll-back of a half-read token at a full window)
+	nLong := 3
+	if c.Tier == "thorough" {
+		nLong = 16
+	}
+	for li := 0; li < nLong; li++ {
+		cl := []string{"text", "pruns", "alpha4", "tokendense", "alpha3", "mixed"}[li%6]
+		st := namedStream{name: fmt.Sprintf("long-%s", cl), kind: "flate",
+			s: encStream("std", "flate", []int{6, 1, 9}[li%3], DataSpec{Class: cl, Seed: rng.Int63n(1 << 30), Len: 1200000 + rng.Intn(900000), Period: 7}, nil)}
+		for _, arch := range c.Levels {
+			group := fmt.Sprintf("C04-long%d-a%d", li, arch)
+			for si, ch := range [][]int{{0}, {1}, {2}, {3}, {7}, {5, 1, 2}} {
+				cs := &RCase{ID: fmt.Sprintf("C04-%d", id), Kind: "flate", Arch: arch, Group: group, GClause: "C04.same_outcome", Tag: st.name,
+					Segs: []RSeg{{Stream: st.s, Src: RSource{Kind: "plain", Chunks: ch, FailAt: -1, Released: -1}, Reads: [][]int{{1 << 20}, {4096}, {70000}}[si%3], Multi: true}}}
+				id++
+				cases = append(cases, cs)
+			}
+		}
+	}
 	c.ev.Rule = fmt.Sprintf("%d streams (valid from 8 encoders incl. Flush points, and truncations) x source chunk schedules %v x Read schedules %v x bufio sizes %v x EOF-with-data, at every acceleration level; each schedule's (bytes, digest, final error) must equal the all-at-once schedule's; distinct by (stream, schedule)", len(streams), chunkSchedules, readSchedules, bufioSizes)
 	c.ev.Exhaustive = true
 	for _, cs := range cases[1:minInt(4, len(cases))] {
